@@ -374,7 +374,7 @@ def prepare(ctx, case):
     try:
         vals = {repr(l): ctx.values(l) for l in lvs}
     except space.OperandError as e:
-        return Outcome('violation', 'operand-eval:{}'.format(lvs and lvs[0][1]), str(e))
+        return Outcome('violation', 'raise:operand', str(e))
     # --- reference, per point
     refs = []
     nperr = None
